@@ -114,6 +114,25 @@ func (ks *keyset) text(cls, kind string, rng *rand.Rand) string {
 			k[p] = 'q'
 		}
 		return string(k)
+	case "subst_q":
+		// a character of value 0 ("q"/"Q") replaced by a character outside the alphabet (a decoder table that was never
+		// filled with "invalid" reads every foreign character as 0)
+		for _, i := range []int{0, 1, 2} {
+			k := []byte(key(i))
+			start := strings.LastIndex(string(k), "1") + 1
+			for p := start; p < len(k); p++ {
+				if k[p] == 'q' || k[p] == 'Q' {
+					k[p] = map[bool]byte{true: 'B', false: 'b'}[k[p] == 'Q']
+					if rng.Intn(2) == 0 {
+						k[p] = '!'
+					}
+					return string(k)
+				}
+			}
+		}
+		k := []byte(key(0))
+		k[len(k)-10] = '!'
+		return string(k)
 	case "truncated":
 		k := key(1)
 		return k[:len(k)-1-rng.Intn(5)]
@@ -558,7 +577,7 @@ func gen(run *vk.Run, what, c string) []fcase {
 	return out
 }
 
-var badAll = []string{"kelvin", "pad_bits", "case_data", "subst1", "truncated", "lead_ws", "trail_ws", "wrong_case", "other_kind", "two_keys", "ws_comment", "ws_only", "cr_only", "key_hash", "key_hash_c", "sep_lost", "sep_gone", "nul", "bom"}
+var badAll = []string{"kelvin", "pad_bits", "subst_q", "case_data", "subst1", "truncated", "lead_ws", "trail_ws", "wrong_case", "other_kind", "two_keys", "ws_comment", "ws_only", "cr_only", "key_hash", "key_hash_c", "sep_lost", "sep_gone", "nul", "bom"}
 
 // Run is the C18 check.
 func Run(tier string) {
@@ -617,7 +636,7 @@ func Run(tier string) {
 	})
 	run.Add("cli_encrypted_identity_files", len(encPick))
 	// CLI recipients files with SSH and skipped lines
-	rc := gen(run, "clircp", cfg(run.Pick(2, 3), set("key1", "sshkey"), set("comment", "empty", "long_comment", "long_comment_key"), set("skip"), set("subst1", "pad_bits", "lead_ws", "trail_ws", "other_kind", "two_keys", "ws_only", "key_hash", "wrong_case"), set("lf", "crlf", "none")))
+	rc := gen(run, "clircp", cfg(run.Pick(2, 3), set("key1", "sshkey"), set("comment", "empty", "long_comment", "long_comment_key"), set("skip"), set("subst1", "pad_bits", "subst_q", "lead_ws", "trail_ws", "other_kind", "two_keys", "ws_only", "key_hash", "wrong_case"), set("lf", "crlf", "none")))
 	var pick []int
 	for i := range rc {
 		if len(rc[i].Lines) <= 1 || (i+int(run.Seed))%run.Pick(7, 5) == 0 {
@@ -632,6 +651,7 @@ func Run(tier string) {
 	})
 	run.Add("cli_recipient_files", len(pick))
 	cliIdentityOrder(run, ks, dir, ageBin)
+	cliBigFiles(run, dir, ageBin)
 	run.Sample(map[string]interface{}{"generator": "clircp", "classes": sig(&rc[len(rc)/2])})
 	if run.Thorough() {
 		run.Exhaustive()
@@ -643,6 +663,69 @@ func Run(tier string) {
 // (its plugin a script that logs its start and finds no file key) stands before or after a native key that opens the
 // file: before it, the plugin is consulted first and so gets started; after it, the native key opens the file and the
 // plugin never runs.
+// cliBigFiles: key files far longer than any read buffer or "small file" limit of the command (22 KiB to 1 MiB): every
+// line counts up to the last one, and a malformed line deep in the file is named.
+func cliBigFiles(run *vk.Run, dir, ageBin string) {
+	wd := filepath.Join(dir, "big")
+	os.MkdirAll(wd, 0o755)
+	defer os.RemoveAll(wd)
+	for _, nkeys := range []int{300, 14000} {
+		var ids, rcps strings.Builder
+		ids.WriteString("# " + strings.Repeat("header comment ", 9) + "\n")
+		rcps.WriteString("# recipients\n")
+		var last *age.X25519Identity
+		for i := 0; i < nkeys; i++ {
+			id, err := age.GenerateX25519Identity()
+			if err != nil {
+				vk.Infra("%v", err)
+			}
+			ids.WriteString(id.String() + "\n")
+			rcps.WriteString(id.Recipient().String() + "\n")
+			last = id
+		}
+		os.WriteFile(filepath.Join(wd, "ids.txt"), []byte(ids.String()), 0o600)
+		os.WriteFile(filepath.Join(wd, "rcps.txt"), []byte(rcps.String()), 0o644)
+		var buf bytes.Buffer
+		w, _ := age.Encrypt(&buf, last.Recipient())
+		w.Write([]byte("hello"))
+		w.Close()
+		os.WriteFile(filepath.Join(wd, "in.age"), buf.Bytes(), 0o600)
+		sig := fmt.Sprintf("cli-big:%d-lines", nkeys)
+		// identities: the key that opens the file is the last of the file
+		p := vk.RunProc(120*time.Second, wd, nil, []byte{}, ageBin, "-d", "-i", "ids.txt", "in.age")
+		run.Eval(1)
+		if p.Exit != 0 || string(p.Stdout) != "hello" {
+			run.Violation("C18:wrong-keys:"+sig+":identities", fmt.Sprintf("an identities file of %d keys (%d bytes): the last key of the file does not open a file encrypted to it: exit %d, %s", nkeys, ids.Len(), p.Exit, strings.TrimSpace(string(p.Stderr))), nil)
+		}
+		// recipients: a file encrypted with -R must be for every line, the last included
+		os.Remove(filepath.Join(wd, "out.age"))
+		p = vk.RunProc(120*time.Second, wd, nil, []byte("hello"), ageBin, "-R", "rcps.txt", "-o", "out.age")
+		run.Eval(1)
+		out, _ := os.ReadFile(filepath.Join(wd, "out.age"))
+		ok := false
+		if r, err := age.Decrypt(bytes.NewReader(out), last); err == nil {
+			b, err := io.ReadAll(r)
+			ok = err == nil && string(b) == "hello"
+		}
+		if p.Exit != 0 || !ok {
+			run.Violation("C18:wrong-keys:"+sig+":recipients", fmt.Sprintf("a recipients file of %d keys: exit %d, the last key of the file can open the result: %v (%s)", nkeys, p.Exit, ok, strings.TrimSpace(string(p.Stderr))), nil)
+		}
+		// a malformed line near the end is found and named
+		lines := strings.Split(strings.TrimSuffix(ids.String(), "\n"), "\n")
+		badLine := len(lines) - 3
+		lines[badLine-1] = lines[badLine-1][:40]
+		os.WriteFile(filepath.Join(wd, "bad.txt"), []byte(strings.Join(lines, "\n")+"\n"), 0o600)
+		p = vk.RunProc(120*time.Second, wd, nil, []byte{}, ageBin, "-d", "-i", "bad.txt", "in.age")
+		run.Eval(1)
+		if p.Exit == 0 {
+			run.Violation("C18:bad-line-skipped:"+sig, fmt.Sprintf("an identities file of %d lines whose line %d is a truncated key was accepted", len(lines), badLine), nil)
+		} else if !strings.Contains(string(p.Stderr), fmt.Sprintf("line %d", badLine)) {
+			run.Violation("C18:wrong-line-number:"+sig, fmt.Sprintf("an identities file whose line %d is a truncated key: the error does not name that line: %s", badLine, strings.TrimSpace(string(p.Stderr))), nil)
+		}
+		run.Distinct(sig)
+	}
+}
+
 func cliIdentityOrder(run *vk.Run, ks *keyset, dir, ageBin string) {
 	wd := filepath.Join(dir, "order")
 	os.MkdirAll(filepath.Join(wd, "bin"), 0o755)
